@@ -10,6 +10,12 @@ import ast
 
 def renamed_source(src: str, fnode: ast.AST) -> str | None:
     """src with the locals of fnode renamed; None when it has none to rename."""
+    # the function as the source spells it, not the loader's reading of it (which folds a few
+    # spellings into one and so no longer holds every occurrence of a name)
+    for cand in ast.walk(ast.parse(src)):
+        if isinstance(cand, type(fnode)) and cand.lineno == fnode.lineno and cand.name == fnode.name:
+            fnode = cand
+            break
     params, excl = set(), set()
     for n in ast.walk(fnode):
         if isinstance(n, ast.arg):
